@@ -283,6 +283,7 @@ func genFK(t *rapid.T, s *Schema, ti int, n int) (FK, bool) {
 		fk.Name = fmt.Sprintf("fk_%s_%d", strings.ReplaceAll(tb.Name, " ", "_"), n)
 	} else {
 		fk.Short = rapid.Bool().Draw(t, "fkshort")
+		fk.CaseRef = rapid.IntRange(0, 3).Draw(t, "fkcaseref") == 0
 	}
 	// SET NULL needs nullable child columns to be meaningful; keep it legal for data tests
 	for _, c := range cols {
